@@ -6,27 +6,27 @@ sys.path.insert(0, '/verif/lib')
 CORR = ' Tie to /repo: Generated.v (tables, constants) regenerated from the built engine on every run; the hand-written model is executed against the engine on the stream named in technique; a broken theorem or a model/engine disagreement is re-judged against the property itself and reported with the failing input (or no-failing-input-found).'
 TB = 'Trusted: Coq 8.16.1 kernel (+vm_compute), extraction (ExtrOcamlBasic only), the Go harness/hooks (tag verif), the OCaml oracle driver and the Python driver; the engine logic is modelled by hand (coq/*.v follow engine/*.go), only data is regenerated. '
 CLAIMS = {
-    'C01': ('Coq theorem gen_legal = Spec.legal (set equality, NoDup) for every well-formed position + POS stream vs Spec oracle and model',
+    'C01': ('Coq theorem gen_legal = Spec.legal (set equality, NoDup) for every well-formed position + POS/SUCC/WIDE streams vs Spec oracle and model',
             'C01_movegen_exact: for EVERY well-formed position with the side not to move not in check (established by the FEN loader, C08_sound, and preserved by every move, C02) the generator does not panic and lists exactly the legal moves of the rules (Spec.v), each once; castling conditions = Spec.castle_ok; the king pre-filter removes nothing legal; no generated move iff no legal move. Proof: geometry sweeps over the regenerated tables + generic ray/list lemmas + make_spec (C02) + is_under_check_spec (C09).' + CORR,
             TB + 'The Spec is validated against the engine on every run (sampled positions: move sets must be equal) and reproduces published perft numbers.', '6/C01'),
     'C02': ('Coq theorem make refines Spec.apply and preserves well-formedness (all move classes) + GAME stream (snapshots after every ply, push/pop, bijection)',
             'C02_make_refines: on every well-formed position and every rule-conforming move MakeMove never panics, yields exactly the rules\' position (placement, side, castling rights, ep target, ply), keeps lists = board and all capacities, and its verdict is the rules\' king-safety test; C02_generated_moves_ok; C02_game: any legal move sequence through the `position ... moves` path keeps the position well formed. Un-make: in the model a pop drops the pushed copy (stack discipline C16); on the engine every ply is pushed, compared with ApplyUciMove, popped and compared with the snapshot before.' + CORR,
             TB + 'Stale tails of the piece-list arrays are not modelled (unobservable); bit-for-bit equality after pop is checked on the engine by snapshot.', '6/C02'),
     'C03': ('Coq theorems over the search state machine (all oracle streams = all stop/clock timings, all orderings) + real-engine go forms with stops',
-            'C03_one_bestmove / C03_bestmove_legal: for EVERY stop timing, clock behaviour, move ordering and logging interval the search model (SearchImp.iterate_i, mirrors search.go incl. position stack, PV hand-over, interruption flag) emits exactly one bestmove, a legal root move and head of the last printed PV (0000 exactly when the root has no move).' + CORR,
-            TB + 'Hypotheses of the theorems: ordering returns a permutation; tactical moves are legal moves (C06). The Go scheduler/wall clock is abstracted by the oracle streams.', '6/C03'),
+            'C03_one_bestmove / C03_bestmove_legal: for EVERY stop timing, clock behaviour, move ordering and logging interval the search model (SearchImp.iterate_i, mirrors search.go incl. position stack, PV hand-over, interruption flag) emits exactly one bestmove, a legal root move and head of the last printed PV (0000 exactly when the root has no move). Chess level (C03chess.v, C03total.v): on every well-formed legal position, depth <= 40, the search RETURNS (never panics, SearchTotal.engine_search_total) and has printed exactly one bestmove that is legal by the rules of chess (Spec.legal), or 0000 exactly when the rules give no legal move.' + CORR,
+            TB + 'Only hypothesis left: the move ordering returns a permutation of the list it is given (Go sort + ranking bonuses). The Go scheduler/wall clock is abstracted by the oracle streams.', '6/C03'),
     'C04': ('Coq theorems alpha-beta = minimax (L1 and state machine) + engine scores vs extracted model search vs plain minimax',
-            'C04_alpha_beta / C04_quiescence / C04_root_value / C04_state_machine*: fail-hard alpha-beta with lazy evaluation, ANY move ordering (killers, PV bonus, unstable sort) returns exactly the minimax value of the depth-d tree under the full evaluation whenever no quiescence node is lazy-sensitive (the admitted deviation; decidable by minimax_s), for every window inside [-Inf, Inf]; values never leave the window.' + CORR,
-            TB + 'The search theorems treat move generation/evaluation as given functions (their exactness is C01/C02/C06/C15). Engine scores are compared on sampled positions to depth 1-4.', '6/C04'),
+            'C04_alpha_beta / C04_quiescence / C04_root_value / C04_state_machine*: fail-hard alpha-beta with lazy evaluation, ANY move ordering (killers, PV bonus, unstable sort) returns exactly the minimax value of the depth-d tree under the full evaluation whenever no quiescence node is lazy-sensitive (the admitted deviation; decidable by minimax_s), for every window inside [-Inf, Inf]; values never leave the window. C04chess.v: the numeric premises (mate-in-one bound, value above -Infinity) are discharged on every well-formed legal position from the proved value range of minimax.' + CORR,
+            TB + 'The search theorems treat move generation/evaluation as given functions (their exactness is C01/C02/C06/C15). Engine scores are compared on sampled positions to depth 1-4; disagreements with the model search are refereed by plain minimax over the legal generator with the material-changing subset decided from the board (not by the tactical generator under test).', '6/C04'),
     'C05': ('Coq theorems: score formatting arithmetic, terminal classification = rules, evaluation band (incl. a kernel sweep of the binary64 taper) + mate solver vs engine',
-            'C05_format_win/loss/cp, C05_plies_to_mate: mate distance arithmetic of the printed score for all n; C05_terminal_mate_iff_check + C05_in_check_is_the_rules: a position without moves is mate exactly when the side to move is in check by the rules; C05_band: for every well-formed non-checkmate position |evaluation| < ScoreCloseToMate (material bound from the capacities, table bounds, the SpecFloat taper swept over all 2701 reachable material sums x all king-table pairs, mobility <= 420), hence always printed as cp. "Forced mate found with exact distance / announced mate is real" is decided by the correspondence: AND/OR mate solver over the model generator (= rules, C01/C02) on sparse positions vs `go depth d`.' + CORR,
-            TB + 'Found/real mate as a theorem over minimax is not proved; it follows informally from C04 (value = minimax) and the band.', '6/C05'),
+            'C05_format_win/loss/cp, C05_plies_to_mate: mate distance arithmetic of the printed score for all n; C05_terminal_mate_iff_check + C05_in_check_is_the_rules: a position without moves is mate exactly when the side to move is in check by the rules; C05_band: for every well-formed non-checkmate position |evaluation| < ScoreCloseToMate (material bound from the capacities, table bounds, the SpecFloat taper swept over all 2701 reachable material sums x all king-table pairs, mobility <= 420), hence always printed as cp. C05mate.v (MateProofs): C05_mate_found: a forced mate of the rules (Spec.mate_score) within the full-width depth is valued with exactly its length; C05_mate_real: every value of the depth-d reference is either inside the band with no forced mate within d by the rules, or a mate value whose length is the rules\' forced mate (at most d+1: quiescence sees a capture that mates); C05_reference_total: the reference never panics. With C04 (engine value = reference value) this is the property. Engine: AND/OR mate solver over the model generator on sparse positions vs `go depth d`.' + CORR,
+            TB + 'Found/real mate is proved for the reference minimax; its transfer to the engine score goes through C04 (whose admitted lazy deviation applies).', '6/C05'),
     'C06': ('Coq theorems: tactical list / flags / both counters / perft for every depth = rules + POS stream vs Spec, perft and tperft commands vs model',
             'C06_tactical_exact, C06_tactical_is_filter, C06_flag_exact, C06_count_moves, C06_count_tactical, C06_perft: for every well-formed position the quiescence move list is exactly the legal moves that capture (incl. en passant) or promote, the tactical flag is exact, countMoves/countTacticalMoves equal the generated list lengths (king pre-filter, unchecked castling count and the start-rank ep patch are shown harmless), and perft n = number of legal move paths of the rules for EVERY n.' + CORR,
             TB + 'tperft divide and the int64 range of the counters are covered by the correspondence only.', '6/C06'),
     'C07': ('Kernel-evaluated sweep of all 64x64x5 move strings (theorem) + position commands in all forms against model and engine-internal replay',
-            'C07_roundtrip*: every printable move parses back to itself (lower case, upper-case promotion suffix, fully upper case): complete finite domain decided by vm_compute and lifted to a universal statement. The `position` replay part is decided by the correspondence: startpos / bare FEN / fen-keyword commands with whole games and prefixes must give the snapshot obtained by playing the moves (engine vs engine) and the model\'s.' + CORR,
-            TB + 'The theorem that `position` = fold of the rules\' apply follows from C02 (make_spec) + C08; it is not yet stated as one theorem.', '6/C07'),
+            'C07_roundtrip*: every printable move parses back to itself (lower case, upper-case promotion suffix, fully upper case): complete finite domain decided by vm_compute and lifted to a universal statement. C07pos.v (PositionProofs): C07_position_line / C07_position_by_the_rules: for every input line routed to the position handler (startpos, bare FEN, fen keyword), a move list legal by the rules is accepted and the resulting position is exactly the fold of the rules\' Spec.apply over the moves from the start (pos_equiv: board, turn, rights, ep, ply), killer table cleared; C07_startpos: the initial position is a legal position of the rules with 20/400/8902 paths. Engine: position commands in all forms with whole games and prefixes must give the snapshot obtained by playing the moves (engine vs engine) and the model\'s.' + CORR,
+            TB + 'That the loader builds the placement the FEN text denotes is decided by the FEN stream (C08), not by a theorem.', '6/C07'),
     'C08': ('Coq theorems parse_fen total and sound (all strings) + FEN stream (valid, variants, mutations, junk) against the engine',
             'C08_total: no string makes the loader panic (every board index and list append is guarded); C08_sound: every accepted string yields a well-formed position (lists = board, one king each, capacities incl. room for promotions, no back-rank pawns, consistent castling/ep fields, ply in range, side not to move not in check). Both for ALL strings.' + CORR,
             TB + 'Faithfulness for valid FENs is decided by the differential stream (engine snapshot = model snapshot); a rejected FEN leaving the position unchanged is checked through the command interpreter.', '6/C08'),
@@ -55,11 +55,11 @@ CLAIMS = {
             'C16_go_leaves_the_stack etc.: every push is popped on every exit path (cut-off, interruption, deadline) and the evaluation\'s turn-flag flip is undone, for all oracles/orderings; perft/eval are modelled functionally. The engine is checked after every query command of random sequences (stack index 0, snapshot unchanged, same probe search).' + CORR,
             TB, '6/C16'),
     'C17': ('Coq theorems: the command interpreter is total and keeps the session invariant for every line + grammar/junk scripts on the real binary vs the session model',
-            'C17_interpreter_total(_legal_moves), C17_go_arguments_total, C17_session_never_crashes: for EVERY input line (arbitrary text, truncated commands, any numeric argument, options out of range, commands before a position, rejected FENs, move lists that are legal per UCI) `handle` returns without panic and keeps (position well-formed, ply margin, logging interval in range); premises: the search does not panic (search_total: C03/C10/C16/C18 cover its parts) and perft does not panic on well-formed positions (C06_perft). Engine: scripts line by line, output classes vs model, liveness (`isready`->`readyok`) after every line; commands during a running search incl. a 70 KB line.' + CORR,
-            TB + 'search_total / perft_total are explicit premises of the theorem, not axioms; wedging (as opposed to crashing) is decided by the liveness probes.', '6/C17'),
+            'C17_interpreter_total(_legal_moves), C17_go_arguments_total, C17_session_never_crashes: for EVERY input line (arbitrary text, truncated commands, any numeric argument, options out of range, commands before a position, rejected FENs, move lists that are legal per UCI) `handle` returns without panic and keeps (position well-formed, ply margin, logging interval in range); C17full.v: NO premise is left: C17_search_never_panics (iterative deepening from any well-formed legal position, depth 1..40, any killer table, any stop/clock stream, never panics: capacity + stale-PV + generator/make + index panics all excluded), perft/tperft totality (PerftProofs), hence C17_interpreter_never_panics and C17_read_loop_never_crashes for the engine\'s own search under any permuting ordering. Engine: scripts line by line, output classes vs model, liveness (`isready`->`readyok`) after every line; commands during a running search incl. a 70 KB line.' + CORR,
+            TB + 'Only hypothesis: the ordering permutes. Wedging (as opposed to crashing) of the real process is decided by the liveness probes; the Go runtime (stack growth, scanner buffer) is not modelled.', '6/C17'),
     'C18': ('Coq capacity theorem (PV rows, stack, quiescence fuel) for every oracle + stress inputs on the engine',
-            'C18_no_capacity_panic: with tactical moves decreasing a measure (<= 46) and depth <= 40 the search never indexes the PV table, the position stack or runs out of quiescence fuel: 40 + 46 + 1 < 88 rows < 200 slots. Engine: move numbers up to the loader\'s limit, iteration 40 on blocked positions, capture-heavy positions, games of 300-700 plies.' + CORR,
-            TB + 'The measure hypotheses (captures/promotions decrease men+pawns) are stated as premises; killer-table slot arithmetic is total by construction (uint16 mod 350).', '6/C18'),
+            'C18_no_capacity_panic: with tactical moves decreasing a measure (<= 46) and depth <= 40 the search never indexes the PV table, the position stack or runs out of quiescence fuel: 40 + 46 + 1 < 88 rows < 200 slots. C18chess.v: the measure (pieces + 2 x pawns <= 46, never increased by a move, decreased by every capture/promotion) is proved for the real generator and make_legal, so C18_chess_no_capacity_panic has no premise but depth <= 40 and a well-formed legal root. Engine: move numbers up to the loader\'s limit, iteration 40 on blocked positions, capture-heavy positions, games of 300-700 plies.' + CORR,
+            TB + 'Killer-table slot arithmetic is total by construction (uint16 mod 350).', '6/C18'),
     'C19': ('Coq theorems on the read loop (any input, any search) + child processes ended by quit/EOF in every state',
             'C19_terminates/eof/quit: the read loop ends after at most one iteration per input line plus one, at once on end of input, and at `quit` without reading further, for every input and every search; the pre-fix loop (ignoring Scan) is the recorded finding.' + CORR,
             TB + 'Partial: OS pipe semantics and process teardown are observed, not modelled.', '6/C19'),
@@ -95,7 +95,7 @@ def main():
         'setup_cmd': './check --setup',
         'hooks': {'guard': 'verif', 'enable': 'go build -tags verif (harness module /verif/harness with replace macsmol/magog => /repo)',
                   'baseline_off_cmd': BASELINE,
-                  'source_commits': ['16d9197','e39a3fe','77c86f9','f061b3c'], 'add_only': True},
+                  'source_commits': ['76199ae', '16d9197', 'e39a3fe', '77c86f9', 'f061b3c'], 'add_only': True},
         'engines': [{'name': 'coq-model+correspondence', 'path': '/verif/coq', 'serves_properties': sorted(CLAIMS),
                      'kind_free_text': 'Coq 8.16.1 development (model + theorems), extracted OCaml oracle, Go harness (tag verif), Python driver ./check'}],
         'checks': checks,
